@@ -207,7 +207,7 @@ func (e *Engine) structFields(args []Value) Value {
 			key = tv
 		}
 		kind := 3
-		var ps, pi, pb, py Value = Ptr{}, Ptr{}, Ptr{}, Ptr{}
+		var ps, pi, pb, py, pi32, pi64 Value = Ptr{}, Ptr{}, Ptr{}, Ptr{}, Ptr{}, Ptr{}
 		p := base.Sub(i)
 		if b, ok := f.Type().Underlying().(*types.Basic); ok {
 			switch {
@@ -217,6 +217,10 @@ func (e *Engine) structFields(args []Value) Value {
 				kind, pi = 1, p
 			case b.Kind() == types.Bool:
 				kind, pb = 2, p
+			case b.Kind() == types.Int32:
+				kind, pi32 = 5, p
+			case b.Kind() == types.Int64:
+				kind, pi64 = 6, p
 			}
 		}
 		if sl, ok := f.Type().Underlying().(*types.Slice); ok {
@@ -225,7 +229,7 @@ func (e *Engine) structFields(args []Value) Value {
 			}
 		}
 		full := reflect.StructTag(st.Tag(i)).Get(tag)
-		out = append(out, &StructV{F: []Value{ConstStr(key), ConstStr(f.Name()), ConstStr(full), smt.BV(uint64(kind), 64), ps, pi, pb, py}})
+		out = append(out, &StructV{F: []Value{ConstStr(key), ConstStr(f.Name()), ConstStr(full), smt.BV(uint64(kind), 64), ps, pi, pb, py, pi32, pi64}})
 	}
 	return e.newSliceVals(out)
 }
